@@ -1,64 +1,51 @@
-(** C14: out-of-range attachment / external node numbers.
+(** C14: out-of-range attachment / external node numbers (after the repair of F10, commit 2f3a5c1:
+    [if vi < 0: raise IndexError] inside the [try]).
 
-    Full statement (what the property asks):
-      a document that [json_to_hrg] accepts contains no node number outside [0..n-1]
-      -- REFUTED for the code as it stands ([accepted_has_oor_refuted], F10: a number in [-n..-1]
-      wraps around).
-    Proved: the same with "outside [-n..n-1]" ([accepted_in_py_range]), and at the level of the two
-    loops of [json_to_hrg] every number [>= n] or [< -n] gives exactly [Err ValueErr]. *)
+    - every number outside [0..n-1] -- negative ones included -- gives exactly [Err ValueErr], at the
+      indexing statement and in the two loops of [json_to_hrg];
+    - a document that [json_to_hrg] accepts contains no node number outside [0..n-1]. *)
 From Coq Require Import List Arith Bool PeanoNat ZArith Lia.
 Import ListNotations.
 Require Import Fggs.Model.Json Fggs.Proofs.Json_base.
 Local Open Scope nat_scope.
 
-Lemma att_index_oor_py : forall {A : Type} (l : list A) z,
-  oor_py (length l) z = true -> att_index l (JInt z) = Err ValueErr.
+Lemma att_index_oor : forall {A : Type} (l : list A) z,
+  oor (length l) z = true -> att_index l (JInt z) = Err ValueErr.
 Proof.
-  intros A l z H. unfold oor_py in H. apply orb_true_iff in H.
-  unfold att_index, py_index.
-  destruct (z <? 0)%Z eqn:Ez.
-  - apply Z.ltb_lt in Ez. destruct H as [H|H].
-    + apply Z.ltb_lt in H. assert ((z + Z.of_nat (length l) <? 0)%Z = true) as -> by (apply Z.ltb_lt; lia).
-      reflexivity.
-    + apply Z.leb_le in H. lia.
-  - apply Z.ltb_ge in Ez. destruct H as [H|H].
-    + apply Z.ltb_lt in H. lia.
-    + apply Z.leb_le in H. rewrite (proj2 (Z.ltb_ge z 0) Ez).
-      destruct (nth_error l (Z.to_nat z)) eqn:E; [|reflexivity].
-      assert (Z.to_nat z < length l) by (apply nth_error_Some; congruence). lia.
+  intros A l z H. unfold oor in H. apply orb_true_iff in H.
+  unfold att_index, json_neg, py_index.
+  destruct (z <? 0)%Z eqn:Ez; [reflexivity|].
+  destruct H as [H|H]; [discriminate|]. apply Z.ltb_ge in Ez. apply Z.leb_le in H.
+  rewrite (proj2 (Z.ltb_ge z 0) Ez).
+  destruct (nth_error l (Z.to_nat z)) eqn:E; [|reflexivity].
+  assert (Z.to_nat z < length l) by (apply nth_error_Some; congruence). lia.
 Qed.
 
-(** the positive theorem for non-negative out-of-range numbers, and for numbers below -n *)
+Lemma att_index_negative : forall {A : Type} (l : list A) z, (z < 0)%Z -> att_index l (JInt z) = Err ValueErr.
+Proof.
+  intros A l z H. apply att_index_oor. unfold oor. apply orb_true_iff. left. now apply Z.ltb_lt.
+Qed.
+
 Lemma att_index_too_big : forall {A : Type} (l : list A) z,
   (Z.of_nat (length l) <= z)%Z -> att_index l (JInt z) = Err ValueErr.
 Proof.
-  intros A l z H. apply att_index_oor_py. unfold oor_py. apply orb_true_iff. right. now apply Z.leb_le.
+  intros A l z H. apply att_index_oor. unfold oor. apply orb_true_iff. right. now apply Z.leb_le.
 Qed.
 
-Lemma att_index_too_small : forall {A : Type} (l : list A) z,
-  (z < - Z.of_nat (length l))%Z -> att_index l (JInt z) = Err ValueErr.
+Lemma att_index_ok_in_range : forall {A : Type} (l : list A) z x,
+  att_index l (JInt z) = Ok x -> oor (length l) z = false.
 Proof.
-  intros A l z H. apply att_index_oor_py. unfold oor_py. apply orb_true_iff. left. now apply Z.ltb_lt.
+  intros A l z x H. destruct (oor (length l) z) eqn:E; [|reflexivity].
+  rewrite (att_index_oor l z E) in H. discriminate.
 Qed.
-
-Lemma att_index_ok_py_range : forall {A : Type} (l : list A) z x,
-  att_index l (JInt z) = Ok x -> oor_py (length l) z = false.
-Proof.
-  intros A l z x H. destruct (oor_py (length l) z) eqn:E; [|reflexivity].
-  rewrite (att_index_oor_py l z E) in H. discriminate.
-Qed.
-
-(** F10: the statement with [oor] (outside 0..n-1) in place of [oor_py] is false *)
-Lemma att_index_negative_refuted :
-  exists (l : list nat) z x, oor (length l) z = true /\ att_index l (JInt z) = Ok x.
-Proof. exists [10; 20], (-1)%Z, 20. split; reflexivity. Qed.
 
 (** a JInt element either indexes or raises ValueError -- never another error *)
 Lemma att_index_int_cases : forall {A : Type} (l : list A) z,
   (exists x, att_index l (JInt z) = Ok x) \/ att_index l (JInt z) = Err ValueErr.
 Proof.
-  intros A l z. unfold att_index, py_index.
-  destruct ((if (z <? 0)%Z then (z + Z.of_nat (length l))%Z else z) <? 0)%Z; [now right|].
+  intros A l z. unfold att_index, json_neg, py_index.
+  destruct (z <? 0)%Z; [now right|].
+  destruct (z <? 0)%Z; [now right|].
   destruct (nth_error l _); eauto.
 Qed.
 
@@ -66,14 +53,14 @@ Definition is_int (j : json) : Prop := exists z, j = JInt z.
 
 (** the loop [for vi in ...: try: nodes[vi] except IndexError: raise ValueError] *)
 Lemma mapM_att_index_rejects : forall {A : Type} (nodes : list A) la,
-  Forall is_int la -> Exists (fun j => num_sat oor_py (length nodes) j = true) la ->
+  Forall is_int la -> Exists (fun j => num_sat oor (length nodes) j = true) la ->
   mapM (att_index nodes) la = Err ValueErr.
 Proof.
   intros A nodes. induction la as [|j la IH]; intros Hint Hex; [inversion Hex|].
   inversion Hint as [|? ? [z ->] Hint']; subst. cbn [mapM].
   destruct (att_index_int_cases nodes z) as [[x Hx]|He].
   - rewrite Hx. cbn [bind]. inversion Hex as [? ? H|? ? H]; subst.
-    + cbn in H. rewrite (att_index_oor_py nodes z H) in Hx. discriminate.
+    + cbn in H. rewrite (att_index_oor nodes z H) in Hx. discriminate.
     + rewrite (IH Hint' H). reflexivity.
   - rewrite He. reflexivity.
 Qed.
@@ -81,7 +68,7 @@ Qed.
 (** an edge whose attachment list contains such a number makes the edge loop raise ValueError *)
 Lemma parse_edges_rejects : forall tbl nodes je l c seen d la,
   je = JDict d -> dict_find d k_attachments = Some (JList la) ->
-  Forall is_int la -> Exists (fun j => num_sat oor_py (length nodes) j = true) la ->
+  Forall is_int la -> Exists (fun j => num_sat oor (length nodes) j = true) la ->
   parse_edges tbl nodes (je :: l) c seen = Err ValueErr.
 Proof.
   intros tbl nodes je l c seen d la -> Hd Hint Hex. cbn [parse_edges jget]. rewrite Hd. cbn [bind jiter].
@@ -166,13 +153,13 @@ Section Accepted.
   Qed.
 End Accepted.
 
-(** positive theorem: whatever [json_to_hrg] accepts has all its node numbers within [-n..n-1] *)
-Theorem accepted_in_py_range : forall c j g, json_to_hrg_model c j = Ok g -> has_num oor_py j = false.
+(** whatever [json_to_hrg] accepts has all its node numbers within [0..n-1] *)
+Theorem accepted_in_range : forall c j g, json_to_hrg_model c j = Ok g -> has_oor j = false.
 Proof.
-  intros c j g. apply json_to_hrg_accepts. intros nodes z x. apply att_index_ok_py_range.
+  intros c j g. apply json_to_hrg_accepts. intros nodes z x. apply att_index_ok_in_range.
 Qed.
 
-(** a concrete document with attachment number -1 *)
+(** the document that exhibited F10 (attachment number -1) is now rejected with ValueError *)
 Definition f10_doc : json :=
   JDict [(k_terminals, JDict [([116], JDict [(k_type, JList [JStr [78]; JStr [78]])])]);
          (k_nonterminals, JDict [([83], JDict [(k_type, JList [])])]);
@@ -183,14 +170,13 @@ Definition f10_doc : json :=
                                                 (k_edges, JList [JDict [(k_attachments, JList [JInt 0; JInt (-1)]);
                                                                         (k_label, JStr [116])]])])]])].
 
-(** full statement refuted: the model (like the code) accepts [f10_doc] *)
-Theorem accepted_has_oor_refuted : exists j g, json_to_hrg_model 0 j = Ok g /\ has_oor j = true.
-Proof. exists f10_doc. eexists. split; vm_compute; reflexivity. Qed.
+Example f10_doc_rejected : has_oor f10_doc = true /\ json_to_hrg_model 0 f10_doc = Err ValueErr.
+Proof. split; vm_compute; reflexivity. Qed.
 
-(** hypotheses of [parse_edges_rejects] are satisfiable: attachment number 2 with 2 nodes *)
+(** hypotheses of [parse_edges_rejects] are satisfiable: attachment number -1 with 2 nodes *)
 Example parse_edges_rejects_ex :
   parse_edges [] [mkNode [78] (Explicit [97]); mkNode [78] (Explicit [98])]
-              [JDict [(k_attachments, JList [JInt 0; JInt 2]); (k_label, JStr [116])]] 0 [] = Err ValueErr.
+              [JDict [(k_attachments, JList [JInt 0; JInt (-1)]); (k_label, JStr [116])]] 0 [] = Err ValueErr.
 Proof.
   eapply parse_edges_rejects; [reflexivity|reflexivity| |].
   - repeat constructor; eexists; reflexivity.
